@@ -8,7 +8,13 @@
 // option. This file may not be copied, modified, or distributed
 // except according to those terms.
 
+#[cfg(not(feature = "verif-hooks"))]
 use std::{cell::RefCell, collections::hash_map, env, fs, hash::Hasher, time::SystemTime};
+#[cfg(feature = "verif-hooks")]
+use std::{cell::RefCell, collections::hash_map, hash::Hasher};
+
+#[cfg(feature = "verif-hooks")]
+use super::verif_seam::{SystemTime, env, fs, iana_time_zone};
 
 use super::tz_info::TimeZone;
 use super::{FixedOffset, NaiveDateTime};
